@@ -1179,8 +1179,71 @@ fn main() {
         ses.end_case();
     }
 
+    // ------------------------------------------------------------------ E. exhaustive short histories over a small alphabet
+    // every sequence of `depth` symbolic messages × 2 clocks (before the first start / exactly at it) from a touching
+    // two-stage chain; symbols are made concrete against the contract's current stage list (state-dependent generation).
+    {
+        let depth = ses.scale(2, 3) as usize;
+        let syms = ["add_touch", "add_gap", "add_overlap", "rm0", "rm1", "rm2", "upd_touch", "upd_overlap", "upd_eq", "addm"];
+        let alpha: Vec<(usize, bool)> = (0..syms.len()).flat_map(|i| [(i, false), (i, true)]).collect();
+        let total = alpha.len().pow(depth as u32);
+        for v in variants {
+            let mut mk = MerkleCtx { trees: vec![] };
+            let base: Vec<St> = vec![default_stage(0, T0 + 2, T0 + 4), default_stage(1, T0 + 4, T0 + 6)];
+            let mut n = 0usize;
+            while n < total {
+                ses.begin_case(&mut sut, &format!("case v={} exhaustive depth={depth} from={n}", v.name()));
+                let hi = (n + 50).min(total);
+                for code in n..hi {
+                    ses.step(&mut sut, &std_inst(v, T0, &base, &mut mk));
+                    let mut c = code;
+                    let mut tag = String::new();
+                    for _ in 0..depth {
+                        let (si, at_start) = alpha[c % alpha.len()];
+                        c /= alpha.len();
+                        let stages = sut.pre.as_ref().map(|p| p.stages.clone()).unwrap_or_default();
+                        let first_start = stages.first().map(|s| s.start).unwrap_or(T0 + 2);
+                        let now = if at_start { first_start } else { first_start.saturating_sub(1) };
+                        let last_stop = stages.last().map(|s| s.stop).unwrap_or(now + 1);
+                        let s0_stop = stages.first().map(|s| s.stop).unwrap_or(now + 1);
+                        let line = match syms[si] {
+                            "add_touch" => format!("add_stage now={now} sender={ADMIN} stage={} members=12:2,15:1", default_stage(3, last_stop, last_stop + 2).line()),
+                            "add_gap" => format!("add_stage now={now} sender={ADMIN} stage={} members=13:2", default_stage(4, last_stop + 1, last_stop + 3).line()),
+                            "add_overlap" => format!("add_stage now={now} sender={ADMIN} stage={} members=-", default_stage(5, last_stop - 1, last_stop + 2).line()),
+                            "rm0" => format!("remove_stage now={now} sender={ADMIN} id=0"),
+                            "rm1" => format!("remove_stage now={now} sender={ADMIN} id=1"),
+                            "rm2" => format!("remove_stage now={now} sender={ADMIN} id=2"),
+                            "upd_touch" => format!("update_stage now={now} sender={ADMIN} id=1 name=- start={} stop=- price=- pal=- mcl=-", s0_stop),
+                            "upd_overlap" => format!("update_stage now={now} sender={ADMIN} id=1 name=- start={} stop=- price=- pal=- mcl=-", s0_stop - 1),
+                            "upd_eq" => format!("update_stage now={now} sender={ADMIN} id=0 name=- start=- stop={} price=- pal=- mcl=-", first_start),
+                            _ => format!("add_members now={now} sender={ADMIN} id=1 members=12:2"),
+                        };
+                        let out = ses.step(&mut sut, &line);
+                        tag.push_str(&format!("{}{}{}.", syms[si], if at_start { "@" } else { "<" }, if out.starts_with("ok") { "+" } else { "-" }));
+                    }
+                    ses.mark(format!("{}:seq:{tag}", v.name()));
+                    let stages = sut.pre.as_ref().map(|p| p.stages.clone()).unwrap_or_default();
+                    let mut ts = edges(&stages);
+                    if ts.is_empty() {
+                        ts.push(T0 + 1);
+                    }
+                    if ses.tier() == Tier::Quick {
+                        rng.shuffle(&mut ts);
+                        ts.truncate(2);
+                    }
+                    for t in ts {
+                        ses.step(&mut sut, &q_line(v, t, &probes, &mk, &mut rng));
+                    }
+                }
+                ses.end_case();
+                n = hi;
+            }
+        }
+        ses.note(format!("exhaustive: all {} sequences of {} symbolic messages × 2 clocks per variant", total, depth));
+    }
+
     // ------------------------------------------------------------------ D. random histories (mostly valid, single faults, boundary clock)
-    let n_traces = ses.scale(150, 6000);
+    let n_traces = ses.scale(450, 9000);
     for tr in 0..n_traces {
         let v = variants[(tr % 3) as usize];
         let mut mk = MerkleCtx { trees: vec![] };
